@@ -153,12 +153,12 @@ var verif_ghost struct {
 	mLockHeld    bool      // the manifest file lock is held by this process
 
 	// root commit through a manifest (NomsBlockStore.updateManifest / ChunkJournal.Update)
-	uCalled   bool      // manifest.Update was invoked
-	uLastLock hash.Hash // the lastLock it was given
-	uNewRoot  hash.Hash // the root of the contents it was given
-	uNewLock  hash.Hash // the lock of the contents it was given
-	jCommitCalled  bool // journalWriter.commitRootHash was invoked
-	jBackingCalled bool // the backing manifest was updated (flushToBackingManifest)
+	uCalled        bool      // manifest.Update was invoked
+	uLastLock      hash.Hash // the lastLock it was given
+	uNewRoot       hash.Hash // the root of the contents it was given
+	uNewLock       hash.Hash // the lock of the contents it was given
+	jCommitCalled  bool      // journalWriter.commitRootHash was invoked
+	jBackingCalled bool      // the backing manifest was updated (flushToBackingManifest)
 
 	// batched table lookups: the index entry fetched is the one whose suffix just matched
 	tMatched  bool
@@ -173,7 +173,9 @@ var verif_ghost struct {
 
 func verif_x_File_Sync(f *os.File) (err error) { return f.Sync() }
 
-func verif_x_File_WriteAt(f *os.File, b []byte, off int64) (n int, err error) { return f.WriteAt(b, off) }
+func verif_x_File_WriteAt(f *os.File, b []byte, off int64) (n int, err error) {
+	return f.WriteAt(b, off)
+}
 
 func verif_x_Fatalf(behavior dherrors.FatalBehavior, msg string, args ...any) (err error) {
 	return dherrors.Fatalf(behavior, msg, args...)
